@@ -70,6 +70,12 @@ Theorem C03_path_resolution_confined :
 Proof. exact FatVol.ProofsDots.resolved_confined. Qed.
 Print Assumptions C03_path_resolution_confined.
 
+(* what a dotted path reaches is what its dot-free normal form (Spec.lexnorm: "." dropped, "x/.." cancelled, both kept at the root) reaches in the volume s tree *)
+Theorem C03_path_is_its_normal_form :
+  forall (upper : Model.name -> Model.name) (V : Model.vparams) (s : Model.vol) (parts : list Model.name) (r : Model.rres), ProofsInv.VolInv upper V s -> ProofsWalk.tilde_free upper parts -> Model.resolved upper s parts = Ok r -> r <> Model.RNone -> Spec.twalk upper (Spec.abs_tree s) (Spec.lexnorm upper [] parts) = Ok (Some (ProofsWalk.cur_node s r)).
+Proof. exact FatVol.ProofsDots.resolved_is_normalised_path. Qed.
+Print Assumptions C03_path_is_its_normal_form.
+
 Theorem C03_dot_skipped :
   forall (upper : Model.name -> Model.name) (p : Spec.node) (stk : list Spec.node) (ch : list (Model.name * Spec.node)) (h : Model.name) (r : list Model.name), upper h = [46] -> Spec.twalkd upper (p :: stk) (Spec.Dir ch) (h :: r) = Spec.twalkd upper (p :: stk) (Spec.Dir ch) r.
 Proof. exact FatVol.ProofsDots.twalkd_dot. Qed.
@@ -83,7 +89,7 @@ Print Assumptions C03_dotdot_cancels.
 
 (* non-vacuity: a volume grown by a guarded history is in VolInv; /d/e/../f.txt reaches the 700-byte file, "." and ".." at the root reach nothing, a file is not a directory *)
 Theorem C03_dots_example :
-  ProofsInv.VolInv ProofsEx.up ProofsEx.V0 ProofsDotsEx.s_d /\ (exists (i : N) (e : Model.entry), Model.resolved ProofsEx.up ProofsDotsEx.s_d [ProofsEx.n_d; ProofsDotsEx.n_e; ProofsDotsEx.dotdot; ProofsEx.n_f] = Ok (Model.RFound i e) /\ Model.e_size e = 700 /\ Model.is_dir e = false) /\ Spec.twalkd ProofsEx.up [] (Spec.abs_tree ProofsDotsEx.s_d) [ProofsEx.n_d; ProofsDotsEx.n_e; ProofsDotsEx.dotdot; ProofsEx.n_f] = Ok (Some (Spec.File 700)) /\ Model.resolved ProofsEx.up ProofsDotsEx.s_d [ProofsEx.n_d; ProofsDotsEx.n_e; ProofsDotsEx.dotdot; ProofsEx.n_f] = Model.resolved ProofsEx.up ProofsDotsEx.s_d [ProofsEx.n_d; ProofsDotsEx.dot; ProofsDotsEx.dot; ProofsEx.n_f] /\ Spec.twalkd ProofsEx.up [] (Spec.abs_tree ProofsDotsEx.s_d) [ProofsEx.n_d; ProofsDotsEx.dot; ProofsDotsEx.n_e; ProofsDotsEx.dotdot] = Spec.twalkd ProofsEx.up [] (Spec.abs_tree ProofsDotsEx.s_d) [ProofsEx.n_d] /\ Model.resolved ProofsEx.up ProofsDotsEx.s_d [ProofsDotsEx.dotdot] = Ok Model.RNone /\ Model.resolved ProofsEx.up ProofsDotsEx.s_d [ProofsDotsEx.dot; ProofsEx.n_d] = Ok Model.RNone /\ Model.resolved ProofsEx.up ProofsDotsEx.s_d [ProofsEx.n_d; ProofsDotsEx.dotdot; ProofsDotsEx.dotdot] = Ok Model.RNone /\ Model.resolved ProofsEx.up ProofsDotsEx.s_d [ProofsEx.n_d; ProofsEx.n_f; ProofsDotsEx.dotdot] = Err NotADirectory /\ Spec.reach (Spec.abs_tree ProofsDotsEx.s_d) (Spec.File 700).
+  ProofsInv.VolInv ProofsEx.up ProofsEx.V0 ProofsDotsEx.s_d /\ (exists (i : N) (e : Model.entry), Model.resolved ProofsEx.up ProofsDotsEx.s_d [ProofsEx.n_d; ProofsDotsEx.n_e; ProofsDotsEx.dotdot; ProofsEx.n_f] = Ok (Model.RFound i e) /\ Model.e_size e = 700 /\ Model.is_dir e = false) /\ Spec.twalkd ProofsEx.up [] (Spec.abs_tree ProofsDotsEx.s_d) [ProofsEx.n_d; ProofsDotsEx.n_e; ProofsDotsEx.dotdot; ProofsEx.n_f] = Ok (Some (Spec.File 700)) /\ Model.resolved ProofsEx.up ProofsDotsEx.s_d [ProofsEx.n_d; ProofsDotsEx.n_e; ProofsDotsEx.dotdot; ProofsEx.n_f] = Model.resolved ProofsEx.up ProofsDotsEx.s_d [ProofsEx.n_d; ProofsDotsEx.dot; ProofsDotsEx.dot; ProofsEx.n_f] /\ Spec.twalkd ProofsEx.up [] (Spec.abs_tree ProofsDotsEx.s_d) [ProofsEx.n_d; ProofsDotsEx.dot; ProofsDotsEx.n_e; ProofsDotsEx.dotdot] = Spec.twalkd ProofsEx.up [] (Spec.abs_tree ProofsDotsEx.s_d) [ProofsEx.n_d] /\ Model.resolved ProofsEx.up ProofsDotsEx.s_d [ProofsDotsEx.dotdot] = Ok Model.RNone /\ Model.resolved ProofsEx.up ProofsDotsEx.s_d [ProofsDotsEx.dot; ProofsEx.n_d] = Ok Model.RNone /\ Model.resolved ProofsEx.up ProofsDotsEx.s_d [ProofsEx.n_d; ProofsDotsEx.dotdot; ProofsDotsEx.dotdot] = Ok Model.RNone /\ Model.resolved ProofsEx.up ProofsDotsEx.s_d [ProofsEx.n_d; ProofsEx.n_f; ProofsDotsEx.dotdot] = Err NotADirectory /\ Spec.reach (Spec.abs_tree ProofsDotsEx.s_d) (Spec.File 700) /\ Spec.lexnorm ProofsEx.up [] [ProofsEx.n_d; ProofsDotsEx.n_e; ProofsDotsEx.dotdot; ProofsDotsEx.dot; ProofsEx.n_f] = [ProofsEx.n_d; ProofsEx.n_f] /\ Spec.lexnorm ProofsEx.up [] [ProofsDotsEx.dotdot; ProofsEx.n_d; ProofsDotsEx.dotdot] = [ProofsDotsEx.dotdot].
 Proof. exact FatVol.ProofsDotsEx.FV_dots_example. Qed.
 Print Assumptions C03_dots_example.
 
